@@ -7,8 +7,10 @@
 //! exactly those. It adds no behaviour: with no sink installed every hook is a
 //! relaxed atomic load and a branch.
 
+use core::alloc::Layout;
 use core::mem;
-use core::sync::atomic::{AtomicUsize, Ordering};
+use core::ptr::NonNull;
+use core::sync::atomic::{AtomicU64, AtomicUsize, Ordering};
 
 /// Store of the bump pointer on the allocation fast path.
 pub const SITE_FAST: u8 = 1;
@@ -57,4 +59,143 @@ pub fn sentinel() -> (usize, usize) {
 /// Size of the per-chunk footer.
 pub fn footer_size() -> usize {
     crate::FOOTER_SIZE
+}
+
+// ---- API-level events -------------------------------------------------------
+//
+// One event per public operation, emitted at its return (the linearization
+// point of a single-threaded library), plus one per call the crate makes to
+// the global allocator. With no sink installed each is a relaxed load and a
+// branch.
+
+/// A chunk was obtained for a new arena (`with_capacity` family). `size` = requested capacity.
+pub const OP_NEW: u8 = 1;
+/// `try_alloc_layout` (every allocation method funnels through it) returned.
+pub const OP_ALLOC: u8 = 2;
+/// The private `dealloc` returned (`Allocator::deallocate`, `Alloc::dealloc`, failed slice try-fill).
+pub const OP_DEALLOC: u8 = 3;
+/// The private `grow` returned.
+pub const OP_GROW: u8 = 4;
+/// The private `shrink` returned.
+pub const OP_SHRINK: u8 = 5;
+/// `reset` returned.
+pub const OP_RESET: u8 = 6;
+/// `Drop::drop` of the arena returned.
+pub const OP_DROP: u8 = 7;
+/// `set_allocation_limit` returned.
+pub const OP_SET_LIMIT: u8 = 8;
+/// A failed initialiser's slot (`alloc_try_with` family) was given back by moving the bump pointer.
+pub const OP_REWIND: u8 = 9;
+
+/// An API-level event.
+#[derive(Clone, Copy, Debug)]
+pub struct Api {
+    /// One of the `OP_*` constants.
+    pub op: u8,
+    /// Did the operation succeed.
+    pub ok: bool,
+    /// Resulting pointer (0 if none).
+    pub ptr: usize,
+    /// Requested size.
+    pub size: usize,
+    /// Requested alignment.
+    pub align: usize,
+    /// The block the operation was applied to (dealloc, grow, shrink, rewind).
+    pub old_ptr: usize,
+    /// Its size.
+    pub old_size: usize,
+    /// Its alignment.
+    pub old_align: usize,
+}
+
+impl Api {
+    pub(crate) fn simple(op: u8, size: usize) -> Api {
+        Api { op, ok: true, ptr: 0, size, align: 0, old_ptr: 0, old_size: 0, old_align: 0 }
+    }
+    pub(crate) fn alloc<E>(r: &Result<NonNull<u8>, E>, layout: Layout) -> Api {
+        Api {
+            op: OP_ALLOC,
+            ok: r.is_ok(),
+            ptr: r.as_ref().map(|p| p.as_ptr() as usize).unwrap_or(0),
+            size: layout.size(),
+            align: layout.align(),
+            old_ptr: 0,
+            old_size: 0,
+            old_align: 0,
+        }
+    }
+    pub(crate) fn dealloc(ptr: usize, layout: Layout) -> Api {
+        Api { op: OP_DEALLOC, ok: true, ptr: 0, size: 0, align: 0, old_ptr: ptr, old_size: layout.size(), old_align: layout.align() }
+    }
+    pub(crate) fn rewind(ptr: usize, layout: Layout) -> Api {
+        Api { op: OP_REWIND, ok: true, ptr: 0, size: 0, align: 0, old_ptr: ptr, old_size: layout.size(), old_align: layout.align() }
+    }
+    pub(crate) fn realloc<E>(grow: bool, r: &Result<NonNull<u8>, E>, old_ptr: usize, old: Layout, new: Layout) -> Api {
+        Api {
+            op: if grow { OP_GROW } else { OP_SHRINK },
+            ok: r.is_ok(),
+            ptr: r.as_ref().map(|p| p.as_ptr() as usize).unwrap_or(0),
+            size: new.size(),
+            align: new.align(),
+            old_ptr,
+            old_size: old.size(),
+            old_align: old.align(),
+        }
+    }
+}
+
+/// What a sink may ask the arena an event came from.
+pub trait ArenaView {
+    /// Process-unique identity of the arena (stable across moves).
+    fn id(&self) -> u64;
+    /// Its `MIN_ALIGN`.
+    fn min_align(&self) -> usize;
+    /// `Bump::allocated_bytes`.
+    fn allocated_bytes(&self) -> usize;
+    /// `Bump::allocated_bytes_including_metadata`.
+    fn allocated_bytes_including_metadata(&self) -> usize;
+    /// `Bump::chunk_capacity`.
+    fn chunk_capacity(&self) -> usize;
+    /// `Bump::allocation_limit`.
+    fn allocation_limit(&self) -> Option<usize>;
+    /// Calls `f(data, footer, bump pointer)` for every chunk, newest first. Must not be called for `OP_DROP`.
+    fn chunks(&self, f: &mut dyn FnMut(usize, usize, usize));
+}
+
+/// Signature of the API sink.
+pub type ApiSink = fn(&Api, &dyn ArenaView);
+/// Signature of the sink for the crate's own calls to the global allocator:
+/// `(is an allocation, address (0 = refused), size, align)`.
+pub type ChunkSink = fn(bool, usize, usize, usize);
+
+static API_SINK: AtomicUsize = AtomicUsize::new(0);
+static CHUNK_SINK: AtomicUsize = AtomicUsize::new(0);
+static NEXT_ID: AtomicU64 = AtomicU64::new(1);
+
+/// Install (or remove) the process-wide sinks for API-level events.
+pub fn set_api_sinks(api: Option<ApiSink>, chunk: Option<ChunkSink>) {
+    API_SINK.store(api.map(|f| f as usize).unwrap_or(0), Ordering::SeqCst);
+    CHUNK_SINK.store(chunk.map(|f| f as usize).unwrap_or(0), Ordering::SeqCst);
+}
+
+pub(crate) fn next_arena_id() -> u64 {
+    NEXT_ID.fetch_add(1, Ordering::Relaxed)
+}
+
+#[inline]
+pub(crate) fn api(ev: Api, view: &dyn ArenaView) {
+    let s = API_SINK.load(Ordering::Relaxed);
+    if s != 0 {
+        let f: ApiSink = unsafe { mem::transmute::<usize, ApiSink>(s) };
+        f(&ev, view);
+    }
+}
+
+#[inline]
+pub(crate) fn chunk_event(is_alloc: bool, addr: usize, layout: Layout) {
+    let s = CHUNK_SINK.load(Ordering::Relaxed);
+    if s != 0 {
+        let f: ChunkSink = unsafe { mem::transmute::<usize, ChunkSink>(s) };
+        f(is_alloc, addr, layout.size(), layout.align());
+    }
 }
